@@ -32,6 +32,13 @@ def run(rep, tier, seed, replay):
         directed = [(b"foo", [b"1|c|@bar"], [False]), (b"foo", [b"1|c", b"2|g|@x", b"3|ms"], [True, False, True])]
         for nm, ss, oks in directed:
             items.append(("multi", 15, nm + b":" + b":".join(ss), [nm + b":" + s for s in ss], oks))
+        for _ in range(60 if tier == "quick" else 2000):
+            # a long composite line in which a multi-byte character lies across byte offset 2^k: code that looks at a prefix of
+            # the line only (a buffer, a shortened copy) sees an invalid line; its parts are short lines
+            whole = G.straddle_line(rnd)
+            nm, rest = whole.split(b":", 1)
+            parts = [nm + b":" + s for s in rest.split(b":")] if b"|#" not in rest else [whole]
+            items.append(("straddle", rnd.choice([15, 15, 0, 1]), whole, parts, None))
         for _ in range(n):
             fl = rnd.choice([15, 15, 0, 1, rnd.randrange(16)])
             if rnd.random() < 0.65:
@@ -57,7 +64,7 @@ def run(rep, tier, seed, replay):
         obs[w] = LE.parse_obs(i)
         if i != m:
             bad.append((c, i, m))
-    dist = dict(multi=0, extagg=0, extagg_bad_type=0, with_malformed=0)
+    dist = dict(multi=0, extagg=0, straddle=0, extagg_bad_type=0, with_malformed=0)
     for ii, (kind, fl, whole, parts, meta) in enumerate(items):
         W = obs[(ii, -1)]
         P = [obs[(ii, k)] for k in range(len(parts))]
